@@ -28,6 +28,7 @@ fn main() {
         "dnscache" => dnscache::main(&args[2..]),
         "acl" => acl::main(&args[2..]),
         "ingest" => ingest::main(&args[2..]),
+        "ingest-child" => ingest::child_main(&args[2..]),
         "radv" => radv::main(&args[2..]),
         "rig" => rig::main(&args[2..]),
         "ratelimit" => ratelimit::main(&args[2..]),
